@@ -96,11 +96,43 @@ Qed.
 
 (* ---------- fillSegmentQueue ---------- *)
 (* the next segment: curSegmentID = Some cur *)
+Definition ended_after (cur : Z) (pl : playlist) : Prop :=
+  Endlist pl = true /\ cur + 1 = MediaSequence pl + len (Segments pl).
+
+Lemma ended_after_dec cur pl : {ended_after cur pl} + {~ ended_after cur pl}.
+Proof.
+  unfold ended_after. destruct (Endlist pl); [|right; intros [H _]; discriminate].
+  destruct (Z.eq_dec (cur + 1) (MediaSequence pl + len (Segments pl))); [left; auto|right; tauto].
+Qed.
+
+Lemma ended_after_b cur pl :
+  ended_after cur pl -> Endlist pl && (cur + 1 =? MediaSequence pl + len (Segments pl)) = true.
+Proof. intros [-> H]. cbn. lia. Qed.
+
+Lemma not_ended_after_b cur pl :
+  ~ ended_after cur pl -> Endlist pl && (cur + 1 =? MediaSequence pl + len (Segments pl)) = false.
+Proof.
+  unfold ended_after. intros H. destruct (Endlist pl); [|reflexivity]. cbn.
+  destruct (cur + 1 =? MediaSequence pl + len (Segments pl)) eqn:E; [|reflexivity].
+  exfalso. apply H. split; [reflexivity|lia].
+Qed.
+
 Lemma fill_next_absent fp cur pl :
   cur + 1 < MediaSequence pl \/ MediaSequence pl + len (Segments pl) <= cur + 1 ->
+  ~ ended_after cur pl ->
   fillSegmentQueue fp (Some cur) pl = FillErr OErrNext.
 Proof.
-  intros H. unfold fillSegmentQueue. rewrite findSegmentWithID_nil by lia. reflexivity.
+  intros H Hn. unfold fillSegmentQueue. rewrite findSegmentWithID_nil by lia.
+  rewrite not_ended_after_b by exact Hn. reflexivity.
+Qed.
+
+(* ENDLIST shows up and the last segment has already been downloaded *)
+Lemma fill_next_end fp cur pl :
+  ended_after cur pl -> fillSegmentQueue fp (Some cur) pl = FillEnd.
+Proof.
+  intros H. unfold fillSegmentQueue. destruct H as [He Hc].
+  rewrite findSegmentWithID_nil by lia.
+  rewrite ended_after_b by (split; assumption). reflexivity.
 Qed.
 
 Lemma fill_next_too_late fp cur pl :
@@ -181,10 +213,12 @@ Lemma fill_ok_inv fp cur pl v segPos seg :
   end.
 Proof.
   destruct cur as [c|].
-  - destruct (Z_lt_ge_dec (c + 1) (MediaSequence pl)) as [H|H].
-    { rewrite fill_next_absent by lia. discriminate. }
+  - destruct (ended_after_dec c pl) as [Hea|Hea].
+    { rewrite fill_next_end by exact Hea. discriminate. }
+    destruct (Z_lt_ge_dec (c + 1) (MediaSequence pl)) as [H|H].
+    { rewrite fill_next_absent by (auto; lia). discriminate. }
     destruct (Z_lt_ge_dec (c + 1) (MediaSequence pl + len (Segments pl))) as [H'|H'].
-    2:{ rewrite fill_next_absent by lia. discriminate. }
+    2:{ rewrite fill_next_absent by (auto; lia). discriminate. }
     destruct (Endlist pl) eqn:He.
     + destruct (fill_next_ok fp c pl) as [s [Hs Hf]]; [lia|auto|].
       rewrite Hf. intros E. injection E as <- <- <-.
@@ -211,7 +245,8 @@ Proof.
   unfold fillSegmentQueue. destruct cur as [c|].
   - pose proof (findSegmentWithID_no_panic (MediaSequence pl) (Segments pl) (c + 1)) as Hn.
     destruct (findSegmentWithID (MediaSequence pl) (Segments pl) (c + 1)); try congruence; try discriminate.
-    destruct (negb (Endlist pl) && (clientLiveMaxDistanceFromEnd <? invPos)); discriminate.
+    + destruct (negb (Endlist pl) && (clientLiveMaxDistanceFromEnd <? invPos)); discriminate.
+    + destruct (Endlist pl && (c + 1 =? MediaSequence pl + len (Segments pl))); discriminate.
   - destruct (is_vod (PlaylistType fp)).
     + destruct (Segments pl); discriminate.
     + destruct (Z_lt_ge_dec (len (Segments pl)) clientLiveInitialDistance) as [Hl|Hl].
@@ -225,7 +260,8 @@ Lemma fill_err_inv fp cur pl o :
   fillSegmentQueue fp cur pl = FillErr o ->
   match cur with
   | Some c =>
-      (o = OErrNext /\ (c + 1 < MediaSequence pl \/ MediaSequence pl + len (Segments pl) <= c + 1)) \/
+      (o = OErrNext /\ (c + 1 < MediaSequence pl \/ MediaSequence pl + len (Segments pl) <= c + 1) /\
+       ~ ended_after c pl) \/
       (o = OErrTooLate /\ MediaSequence pl <= c + 1 < MediaSequence pl + len (Segments pl) /\
        Endlist pl = false /\ clientLiveMaxDistanceFromEnd < MediaSequence pl + len (Segments pl) - (c + 1))
   | None =>
@@ -234,10 +270,12 @@ Lemma fill_err_inv fp cur pl o :
   end.
 Proof.
   destruct cur as [c|].
-  - destruct (Z_lt_ge_dec (c + 1) (MediaSequence pl)) as [H|H].
-    { rewrite fill_next_absent by lia. intros E; injection E as <-. left. split; [reflexivity|lia]. }
+  - destruct (ended_after_dec c pl) as [Hea|Hea].
+    { rewrite fill_next_end by exact Hea. discriminate. }
+    destruct (Z_lt_ge_dec (c + 1) (MediaSequence pl)) as [H|H].
+    { rewrite fill_next_absent by (auto; lia). intros E; injection E as <-. left. repeat split; auto; lia. }
     destruct (Z_lt_ge_dec (c + 1) (MediaSequence pl + len (Segments pl))) as [H'|H'].
-    2:{ rewrite fill_next_absent by lia. intros E; injection E as <-. left. split; [reflexivity|lia]. }
+    2:{ rewrite fill_next_absent by (auto; lia). intros E; injection E as <-. left. repeat split; auto; lia. }
     destruct (Endlist pl) eqn:He.
     + destruct (fill_next_ok fp c pl) as [s [Hs Hf]]; [lia|auto|]. rewrite Hf. discriminate.
     + destruct (Z_lt_ge_dec clientLiveMaxDistanceFromEnd (MediaSequence pl + len (Segments pl) - (c + 1))) as [Hd|Hd].
@@ -251,6 +289,28 @@ Proof.
     destruct (Segments pl) as [|s0 segs] eqn:Hs.
     + rewrite fill_first_vod_empty by auto. intros E; injection E as <-. left. auto.
     + rewrite (fill_first_vod fp pl s0 segs) by auto. discriminate.
+Qed.
+
+Lemma fill_end_inv fp cur pl :
+  fillSegmentQueue fp cur pl = FillEnd -> exists c, cur = Some c /\ ended_after c pl.
+Proof.
+  destruct cur as [c|].
+  - intros H. exists c. split; [reflexivity|].
+    destruct (ended_after_dec c pl) as [Hea|Hea]; [exact Hea|]. exfalso.
+    destruct (fillSegmentQueue fp (Some c) pl) as [e| | |v p sg] eqn:Hf; try discriminate.
+    clear H. revert Hf.
+    destruct (Z_lt_ge_dec (c + 1) (MediaSequence pl)) as [H|H].
+    { rewrite fill_next_absent by (auto; lia). discriminate. }
+    destruct (Z_lt_ge_dec (c + 1) (MediaSequence pl + len (Segments pl))) as [H'|H'].
+    2:{ rewrite fill_next_absent by (auto; lia). discriminate. }
+    destruct (Endlist pl) eqn:He.
+    + destruct (fill_next_ok fp c pl) as [s [Hs Hf]]; [lia|auto|]. rewrite Hf. discriminate.
+    + destruct (Z_lt_ge_dec clientLiveMaxDistanceFromEnd (MediaSequence pl + len (Segments pl) - (c + 1))) as [Hd|Hd].
+      * rewrite fill_next_too_late by (auto; lia). discriminate.
+      * destruct (fill_next_ok fp c pl) as [s [Hs Hf]]; [lia|right; lia|]. rewrite Hf. discriminate.
+  - unfold fillSegmentQueue. destruct (is_vod (PlaylistType fp)).
+    + destruct (Segments pl); discriminate.
+    + destruct (findSegmentWithInvPosition (Segments pl) clientLiveInitialDistance); discriminate.
 Qed.
 
 (* ---------- sentinel ---------- *)
